@@ -219,13 +219,13 @@ class NumpyCodegenMapper(CachedMapper[str, Never, []]):
             if isinstance(e, Array):
                 return ast.Name(self.rec(e))
             else:
-                if np.isnan(e):
+                if not np.isfinite(e):
                     e_np = np.array(e)
                     # generates code like: `np.float64("nan")`.
                     return ast.Call(
                         func=ast.Attribute(value=ast.Name(self.numpy),
                                            attr=cast("str", e_np.dtype.name)),
-                        args=[_constant(value="nan")],
+                        args=[_constant(value=str(e_np))],
                         keywords=[])
                 else:
                     return _constant(e)
